@@ -136,7 +136,87 @@ def main_extract():
     return 0
 
 
+# ---------------------------------------------------------------------------------------------------------------------------------
+# 256-bit quotients (mod_n_mul: z = a*b up to 512 bits).  The quotient ESTIMATE is the documented Barrett formula of the routine
+# (q^ = floor(floor(z / 2^192) * floor(2^512 / N) / 2^320); the constant is re-proved equal to floor(2^512/N) by the Lean constants
+# theorem): s = q^ * N is what the five-limb subtraction removes from z.  "rare" = a limb 1..3 of s is all ones AND a borrow enters it.
+M64 = (1 << 64) - 1
+MU = (1 << 512) // N
+
+
+def rare(a, b):
+    z = a * b
+    qh = ((z >> 192) * MU) >> 320
+    s = qh * N
+    zl = [(z >> (64 * i)) & M64 for i in range(5)]
+    sl = [(s >> (64 * i)) & M64 for i in range(5)]
+    borrow = 0
+    hit = None
+    for i in range(4):
+        if i >= 1 and sl[i] == M64 and borrow:
+            hit = i
+        t = zl[i] - borrow - sl[i]
+        borrow = 1 if t < 0 else 0
+    return hit
+
+
+def main_mul256(want_per_limb=4):
+    r = random.Random(20260931)
+    print('# operands of mod_n_mul with a 256-bit quotient whose product q^*N has an all-ones limb (1..3) with a borrow into it (tools/find_limb_quotients.py mul256)')
+    for i in (1, 2, 3):
+        B = 1 << (64 * (i + 1))
+        Ninv = pow(N, -1, B)
+        got = 0
+        tries = 0
+        while got < want_per_limb and tries < 200000:
+            tries += 1
+            T = r.getrandbits(64 * i) | (M64 << (64 * i))
+            q = (T * Ninv) % B + (r.getrandbits(250 - 64 * (i + 1)) << (64 * (i + 1)) if i < 3 else 0)
+            if not (0 < q < N):
+                continue
+            for dq in (0, 1, 2):
+                a = r.randrange(N >> 1, N)
+                b = -(-((q + dq) * N) // a)
+                if 0 < b < N and rare(a, b) == i:
+                    print('n_mul %064x %064x' % (a, b))
+                    print('n_mul %064x %064x' % (b, a))
+                    got += 1
+                    break
+    return 0
+
+
+def main_extract256():
+    sys.path.insert(0, __file__.rsplit('/tools/', 1)[0])
+    from vlib import sm9py as S
+    import math
+    r = random.Random(20260932)
+    print('# master keys: t1 = H1(ID||hid) + ks with (t1, t1) a rare operand pair of mod_n_mul (first squaring of t1^(N-2) in mod_n_inv); tools/find_limb_quotients.py extract256')
+    for hidname, hid in (('sign', 1), ('enc', 3), ('exch', 2)):
+        for idb in ((b'Alice', b'Bob') if hidname != 'exch' else (b'Bob',)):
+            h1 = S.H1(idb, hid)
+            for i in (1, 2, 3):
+                B = 1 << (64 * (i + 1))
+                Ninv = pow(N, -1, B)
+                for _ in range(400000):
+                    T = r.getrandbits(64 * i) | (M64 << (64 * i))
+                    q = (T * Ninv) % B + (r.getrandbits(250 - 64 * (i + 1)) << (64 * (i + 1)) if i < 3 else 0)
+                    if not (0 < q < N):
+                        continue
+                    a = math.isqrt(q * N) + 1
+                    if a < N and rare(a, a) is not None:
+                        ks = (a - h1) % N
+                        if 1 <= ks < N:
+                            print('s9_extract %s %064x %s' % (hidname, ks, idb.hex()))
+                            break
+    return 0
+
+
+
 if __name__ == '__main__':
+    if len(sys.argv) > 1 and sys.argv[1] in ('mul256', 'extract256'):
+        sys.exit(main_mul256() if sys.argv[1] == 'mul256' else main_extract256())
     if len(sys.argv) > 1 and sys.argv[1] == 'extract':
         sys.exit(main_extract())
     sys.exit(main_mul() if len(sys.argv) > 1 and sys.argv[1] == 'mul' else main())
+
+
